@@ -7,6 +7,7 @@ import random
 
 from . import sim
 from .c20_ped import PedScenario
+from . import c09_layout as L
 
 FMT_DEFS = {
     "PS": '##FORMAT=<ID=PS,Number=1,Type=Integer,Description="Phase set identifier">',
@@ -22,7 +23,13 @@ def gen_case(rng, scale=1):
                   shuffle_samples=False)
     distrust = rng.random() < 0.3
     params["gt_error_prob"] = rng.choice([0.1, 0.2]) if distrust else 0.0
-    return {"kind": "history", "gen_seed": rng.randrange(1 << 40), "params": params,
+    seed = rng.randrange(1 << 40)
+    # positions of different contigs that coincide on purpose (c09_layout): same sites on all contigs, identical contigs, last
+    # phased position of contig i == first phased position of contig i+1
+    layout = L.pick_layout(seed)
+    if not L.is_plain(layout):
+        params["n_contigs"] = layout["contigs"]
+    return {"kind": "history", "gen_seed": seed, "params": params, "layout": layout,
             "vcf": {"flip_prob": rng.choice([0.0, 0.5, 0.5, 1.0]), "pre": rng.choice(["none", "none", "PS", "HP", "per-sample"]),
                     "decoys": rng.random() < 0.5, "dp": rng.random() < 0.5,
                     # one sample has no reads on the last contig (a family without accessible positions there)
@@ -36,6 +43,7 @@ def gen_case(rng, scale=1):
 def build_inputs(case, d):
     """writes reference, BAM and the variant file of a case; returns (fa, bam, vcf, scenario)"""
     sc = PedScenario(random.Random(case["gen_seed"]), **case["params"])
+    L.layout_scenario(sc, case.get("layout"), case["opts"]["only_snvs"], case["gen_seed"])
     rng = random.Random(case["gen_seed"] ^ 0xC09)
     v = case["vcf"]
     recs = []
@@ -103,11 +111,15 @@ def build_inputs(case, d):
 # ------------------------------------------------------------------------------------------------
 
 def gen_interleaved_case(rng, cli=True):
-    return {"kind": "interleaved", "gen_seed": rng.randrange(1 << 40), "cli": cli,
+    case = {"kind": "interleaved", "gen_seed": rng.randrange(1 << 40), "cli": cli,
             "n_samples": rng.choice([1, 2, 3]), "n_contigs": rng.choice([1, 1, 2]), "n_variants": rng.choice([7, 9, 12, 14]),
             "enc": rng.choice(["PS", "HP"]), "tag": rng.choice(["PS", "HP"]),
             "pattern": rng.choice(["interleaved", "interleaved", "nested", "nested", "mixed", "contiguous"]),
             "v_noise": rng.choice([0.0, 0.1]), "only_snvs": rng.random() < 0.15}
+    case["layout"] = L.pick_layout(case["gen_seed"], p_plain=0.5)
+    if not L.is_plain(case["layout"]):
+        case["n_contigs"] = case["layout"]["contigs"]
+    return case
 
 
 def _assign_sets(rng, het_idx, pattern):
@@ -144,7 +156,10 @@ def build_interleaved(case, d):
     contigs = {f"chr{c + 1}": "N" * 5000 for c in range(case["n_contigs"])}
     enc = case["enc"]
     recs_v, recs_p = [], []
+    groups_v, groups_p = [], []
     for chrom in contigs:
+        recs_v, recs_p = [], []
+        groups_v.append(recs_v); groups_p.append(recs_p)
         pos, sites = 40, []
         for _ in range(case["n_variants"]):
             pos += rng.randrange(25, 90)
@@ -181,6 +196,10 @@ def build_interleaved(case, d):
                 cp.append(call)
             recs_v.append({"chrom": chrom, "pos": pos, "ref": ref, "alts": [alt], "format": ["GT"], "calls": cv})
             recs_p.append({"chrom": chrom, "pos": pos, "ref": ref, "alts": [alt], "format": ["GT", enc], "calls": cp})
+    # positions of different contigs coincide on purpose (V and P shifted alike; anchors: members of multi-variant sets of P)
+    L.layout_parallel(case.get("layout"), [groups_v, groups_p], case["only_snvs"])
+    recs_v = [r for g in groups_v for r in g]
+    recs_p = [r for g in groups_p for r in g]
     os.makedirs(d, exist_ok=True)
     V, P = os.path.join(d, "V.vcf"), os.path.join(d, "P.vcf")
     sim.write_vcf(V, contigs, samples, recs_v)
